@@ -675,6 +675,32 @@ pub fn run(cfg: &Cfg) -> Stats {
         }
     });
     total = total.merge(s);
+    // (a') values next to the common ones (G17 containing languages): every CLDR locale name with its
+    // language lengthened (es-US -> esu-US, esa-US, esperant-US ...) or its region / script bumped: a table of
+    // pre-rendered common identifiers that is keyed by part of a subtag answers for these too
+    {
+        let mut near: Vec<Vec<u8>> = vec![];
+        for name in c.locale_names.iter() {
+            let toks: Vec<&str> = name.split('-').collect();
+            if toks[0].len() == 2 && toks[0] != "un" {
+                let rest = if toks.len() > 1 { format!("-{}", toks[1..].join("-")) } else { String::new() };
+                for suf in ["u", "a", "z", "xxx", "perant"] {
+                    near.push(format!("{}{suf}{rest}", toks[0]).into_bytes());
+                }
+            }
+        }
+        near.sort();
+        near.dedup();
+        let nn = near.len() as u64;
+        let s = par_range(nn, |i, st| {
+            let b = &near[i as usize];
+            if let Ok(Ok(li)) = guard(|| LanguageIdentifier::from_bytes(b)) {
+                check_value(&li, &bytes_case(b), st, Count::Hash);
+            }
+        });
+        total = total.merge(s);
+        total.subspace("values: every CLDR locale name with its two-letter language lengthened by u / a / z / xxx / perant", nn, true);
+    }
     // (c) non-string documents
     let nd = cfg.pick(400_000, 3_000_000);
     let s = run_strategy(&s_doc(), cfg.seed, "c19-docs", nd, |doc, st| check_doc(doc, st, Count::Hash));
